@@ -94,7 +94,11 @@ def build_and_solve(case, T):
     model_name = case['model']
     try:
         cls = {'SIM': SIM, 'SIMEX1': SIMEX1, 'PC': PC}[model_name]
-        builder = cls('C', use_book_exogenous=False)
+        # for a third of the cases (a function of the case) the builder first installs the book's own exogenous
+        # paths and initial values; the paths and stocks stated afterwards must override them
+        book_first = int(core.digest(case), 16) % 3 == 0
+        builder = cls('C', use_book_exogenous=book_first)
+        out['book_first'] = book_first
         m = builder.build_model()
         c = m['C']
         hh, tf = c['HH'], c['TF']
